@@ -14,6 +14,7 @@
 #include "vh.h"
 #include <time.h>
 #include "src/main.h"
+#include "lib/efuns/replace_program.h"
 
 extern void verif_tick (void);
 extern int heart_beat_flag;
@@ -98,19 +99,52 @@ static void c11_do (char *oid, char *op)
     vh_out ("r %s do_op !err", oid);
 }
 
+/* harness-level id of an object (through the LPC registry) */
+static const char *c11_oid_of (object_t * ob)
+{
+  static char buf[64];
+  error_context_t econ;
+  object_t *reg = c11_vreg ();
+  snprintf (buf, sizeof buf, "?");
+  if (!reg)
+    return buf;
+  save_context (&econ);
+  if (!setjmp (econ.context))
+    {
+      svalue_t *ret;
+      char *fn = make_shared_string ("oid_of");
+      push_object (ob);
+      ret = apply (fn, reg, 1, ORIGIN_DRIVER);
+      free_string (fn);
+      if (ret && ret->type == T_STRING)
+        snprintf (buf, sizeof buf, "%s", ret->u.string);
+      pop_context (&econ);
+    }
+  else
+    {
+      restore_context (&econ);
+      pop_context (&econ);
+    }
+  return buf;
+}
+
 static void c11_tick (void)
 {
   error_context_t econ;
+  replace_ob_t *r;
   c11_ticks++;
+  /* top of the backend() loop: remove_destructed_objects() swaps the programs queued by replace_program() */
+  current_interactive = 0;
+  eval_cost = CONFIG_INT (__MAX_EVAL_COST__);
+  for (r = obj_list_replace; r; r = r->next)
+    if (!(r->ob->flags & O_DESTRUCTED))
+      vh_out ("rpdone %s", c11_oid_of (r->ob));
+  remove_destructed_objects ();
   /* the harness echoes the configuration it set itself: without TIMER_FLAG_HEARTBEAT no round is expected */
   if (MAIN_OPTION (timer_flags) & TIMER_FLAG_HEARTBEAT)
     vh_out ("tickbegin");
   else
     vh_out ("tickbegin off");
-  /* top of the backend() loop */
-  current_interactive = 0;
-  eval_cost = CONFIG_INT (__MAX_EVAL_COST__);
-  remove_destructed_objects ();
   save_context (&econ);
   if (setjmp (econ.context))
     {
